@@ -1,5 +1,6 @@
 import ShellOp.Util
 import ShellOp.Model.Informer
+import ShellOp.Model.MonitorEnable
 /-! Line-protocol suite for C01 (informer hand-over protocol). Core-only. -/
 namespace ShellOp.Drv.C01
 open ShellOp ShellOp.Util ShellOp.Informer
@@ -9,6 +10,7 @@ structure DSt where
   fview : Cache := []     -- view of the foreign reader in flight
   sview : Cache := []     -- view of the sync-tagged reader in flight
   lastView : Cache := []  -- view returned by the read that finished last
+  mon : MonitorEnable.MSt := {}
 
 def kindCh : Kind → String | .added => "a" | .modified => "m" | .deleted => "d"
 def showEv (e : Ev) : String := s!"{e.id}{kindCh e.kind}{e.cs}"
@@ -130,6 +132,86 @@ def step (d : DSt) (toks : List String) : DSt × String :=
           ({ d with m := m', lastView := v }, dump m' s!" view={showCache v}")
         | _ => ({ d with m := m' }, dump m' "")
 
-def suite : Suite DSt := { init := {}, step := step }
+/-! monitor level (`m …` lines) -/
+open MonitorEnable in
+def showEa : EaPc → String
+  | .start => "start" | .flagSet => "flagSet" | .staticsDone => "staticsDone"
+  | .ranging t => s!"ranging:{showNats t}" | .rangeDone => "rangeDone" | .done => "done"
+
+open MonitorEnable in
+def mdump (s : MSt) : String :=
+  let v := sortCache (s.varying.map fun p => (p.1, if p.2 then 1 else 0))
+  let vs := if v.isEmpty then "-" else String.intercalate "," (v.map fun p => s!"{p.1}:{p.2}")
+  s!"flag={if s.flag then 1 else 0} statics={showNats (s.statics.map fun b => if b then 1 else 0)} varying={vs} inflight={showNats s.inflight}"
+
+open MonitorEnable in
+partial def eaUntil (s : MSt) (stop : EaPc → Bool) (fuel : Nat) : MSt :=
+  if fuel == 0 || stop s.ea then s else
+  match MonitorEnable.step true s .ea with
+  | some s' => eaUntil s' stop (fuel - 1)
+  | none => s
+
+open MonitorEnable in
+def mstep (d : DSt) (toks : List String) : DSt × String :=
+  match toks with
+  | "init" :: rest =>
+    match (kv? "statics" rest).bind String.toNat?, (kv? "ns" rest).bind natList? with
+    | some n, some nss =>
+      let m : MSt := { statics := List.replicate n false, varying := nss.map fun x => (x, false) }
+      ({ d with mon := m }, mdump m)
+    | _, _ => (d, "bad-op")
+  | ["ea-begin"] => (d, mdump d.mon)      -- the call has started; nothing done yet
+  | ["ea"] =>
+    -- up to the yield point behind the static loop: flag stored, static informers enabled
+    match d.mon.ea with
+    | .start =>
+      let m := eaUntil d.mon (fun pc => pc == .staticsDone) 10
+      ({ d with mon := m }, mdump m)
+    | _ => (d, "disabled")
+  | ["ea-range"] =>
+    -- the whole range over the keys stored before it began (no yield point inside the range)
+    match d.mon.ea with
+    | .staticsDone =>
+      match MonitorEnable.step true d.mon .ea with
+      | some m1 =>
+        let m := eaUntil m1 (fun pc => pc == .ranging []) 1000
+        ({ d with mon := m }, mdump m)
+      | none => (d, "disabled")
+    | _ => (d, "disabled")
+  | ["ea-end"] =>
+    match d.mon.ea with
+    | .ranging [] =>
+      match MonitorEnable.step true d.mon .ea with
+      | some m => ({ d with mon := m }, mdump m)
+      | none => (d, "disabled")
+    | _ => (d, "disabled")
+  | ["nsStore", n] =>
+    match n.toNat? with
+    | some n => match MonitorEnable.step true d.mon (.nsStore n) with
+      | some m => ({ d with mon := m }, mdump m)
+      | none => (d, "disabled")
+    | none => (d, "bad-op")
+  | ["nsRead", n] =>
+    match n.toNat? with
+    | some n => match MonitorEnable.step true d.mon (.nsRead n) with
+      | some m => ({ d with mon := m }, mdump m)
+      | none => (d, "disabled")
+    | none => (d, "bad-op")
+  | _ => (d, "bad-op")
+
+def stepAll (d : DSt) (toks : List String) : DSt × String :=
+  match toks with
+  | "m" :: rest => mstep d rest
+  | "oracle" :: "m-delivered" :: rest =>
+    -- the property at monitor level: a change made in EVERY namespace of the monitor after the
+    -- unlock settled reached the hook (want ⊆ got)
+    match (kv? "want" rest).bind natList?, (kv? "got" rest).bind natList? with
+    | some want, some got =>
+      let missing := want.filter fun n => !got.contains n
+      if missing.isEmpty then (d, "true") else (d, s!"false never-delivered-namespaces={showNats missing}")
+    | _, _ => (d, "bad-op")
+  | _ => step d toks
+
+def suite : Suite DSt := { init := {}, step := stepAll }
 
 end ShellOp.Drv.C01
